@@ -718,10 +718,10 @@ class TimestampConverter:
     @staticmethod
     def from_unix_millis(ms: int | None) -> datetime.datetime | None:
         """Convert Unix timestamp in milliseconds to datetime."""
+        # integer arithmetic: ms / 1000 as a double, rounded again to microseconds by fromtimestamp,
+        # is off by a millisecond for instants beyond 2**42 ms
         return (
-            datetime.datetime.fromtimestamp(ms / 1000, tz=datetime.UTC)
-            if ms is not None
-            else None
+            _EPOCH + datetime.timedelta(milliseconds=ms) if ms is not None else None
         )
 
 
